@@ -66,7 +66,7 @@ def rule_p1_pool_api(prog: Program, col: Collector) -> None:
                         if sub is s.ev.node:
                             bad = True
         col.check(not bad, s.ref.where(s.ev.node), s.ref.short, "pool results are kept in order (not collected into a set)", construct="pool-set",
-                  necessity="")
+                  necessity="a set forgets the order of the pool results: values are then paired with the wrong action sequences")
 
 
 # --------------------------------------------------------------------------------------
@@ -175,7 +175,7 @@ def rule_c12_recording(prog: Program, col: Collector) -> None:
     tup = tasks[2][1]
     elem, it, conds = tasks[3][0]
     col.check(is_call_to(it, "range") and it[2] == (("param", "repetitions"),) and not conds, eref.where(), eref.short,
-              "one task per repetition (range(repetitions))", construct="tasks-range", necessity="")
+              "one task per repetition (range(repetitions))", construct="tasks-range", necessity="the result matrices have one column per repetition: fewer or more tasks than repetitions break the shape and the pairing of columns with repetitions")
     one_params = ref.positional_params()
     ok_order = len(tup) == len(one_params)
     fresh = False
